@@ -811,6 +811,8 @@ class Runtime:
                 return False
             if isinstance(a, SBool) or isinstance(b, SBool):
                 return interp.eq(a, b)
+            if isinstance(a, Obj) or isinstance(b, Obj):
+                return False          # a symbolic int/bytes/str/... is a value of a built-in type, never this instance
             interp.unsupported("identity test on symbolic values")
         if isinstance(a, (bool, type(None))) or isinstance(b, (bool, type(None))):
             return a is b
